@@ -29,6 +29,7 @@ type GoProg struct {
 	cfgs  map[*ast.FuncDecl]*cfg.CFG
 	// parents maps every node to its parent (built lazily per file)
 	parents map[ast.Node]ast.Node
+	recvWrites map[*ast.FuncDecl][]string
 }
 
 // GoConfig names a build configuration.
